@@ -156,3 +156,8 @@ Proof.
   - apply ev_step_bin. - apply ev_step_cmp. - apply ev_step_not. - apply ev_step_and. - apply ev_step_or.
   - apply src_ev_ifexp_eq.
 Qed.
+
+(* the parts of BaseEvaluator / Evaluator that are not translated (constructor: max = 1 << bits; __call__, the getattr
+   dispatch _visit, _visit_expr) still have the text recorded in the translator *)
+Lemma ev_pins : src_pin_base = true /\ src_pin_ev = true.
+Proof. split; reflexivity. Qed.
